@@ -38,7 +38,7 @@ class Attribute(dict):
     @property
     def classes(self) -> list[str]:
         """Return 'class' attribute as list."""
-        return self["class"].split()
+        return (self["class"] or "").split()
 
     def __str__(self) -> str:
         """Return a htmlized representation for attributes."""
